@@ -132,3 +132,44 @@ Definition ffc_default (p : Z) : bool * Z :=
   else rest p.
 
 End Anchors.
+
+(* ------------------------------------------------------------------------------------------
+   Executable checkers for the hypotheses (H1)-(H3) of the C03 theorem on a concrete instance
+   (tables over the positions 0..n); soundness: Proofs/ScanProofs.v [sc_chk_H1_ok] etc.
+   Used by the Examples of Properties/C03.v and, on the real finder / matcher tables recorded by
+   the harness, by leg c03-scanmodel. *)
+Section Checkers.
+Variable R : Type.
+Variable n : Z.
+Variable rtl : bool.
+Variable min_required : Z.
+Variable finder : Z -> bool * Z.
+Variable exec : Z -> option R * Z.
+
+Definition sc_range : list Z := map Z.of_nat (seq 0 (S (Z.to_nat n))).
+Definition sc_in_text_b (p : Z) : bool := (0 <=? p) && (p <=? n).
+Definition sc_ord_b (p q : Z) : bool := if rtl then q <=? p else p <=? q.
+Definition sc_before_b (p q : Z) : bool := if rtl then q <? p else p <? q.
+Definition sc_fails_b (x : Z) : bool := match fst (exec x) with None => true | Some _ => false end.
+
+(* nothing matches in the closed / half-open interval *)
+Definition sc_all_fail_incl (p q : Z) : bool :=
+  forallb (fun x => implb (sc_ord_b p x && sc_ord_b x q) (sc_fails_b x)) sc_range.
+Definition sc_all_fail_excl (p q : Z) : bool :=
+  forallb (fun x => implb (sc_ord_b p x && sc_before_b x q) (sc_fails_b x)) sc_range.
+
+Definition sc_chk_H1 : bool :=
+  forallb (fun p =>
+    let '(found, q) := finder p in
+    sc_ord_b p q && sc_in_text_b q &&
+    (if found then sc_all_fail_excl p q else sc_all_fail_incl p q)) sc_range.
+Definition sc_chk_H2 : bool :=
+  forallb (fun x => implb ((if rtl then x else n - x) <? min_required) (sc_fails_b x)) sc_range.
+Definition sc_chk_H3 : bool :=
+  forallb (fun p =>
+    match exec p with
+    | (None, q) => sc_ord_b p q && sc_in_text_b q && sc_all_fail_incl p q
+    | _ => true
+    end) sc_range.
+
+End Checkers.
